@@ -668,3 +668,22 @@ PROPS["C09"]["open"] = ["C09_coinspends_rebuild (get_coinspends_for_trusted_bloc
 PROPS["C09"]["level_text"] = ("Partial proof + correspondence. Proved for every block the native-path model accepts (any flags, limit <= the block maximum, generator output made of byte strings): additions_and_removals' model returns exactly the removals (coin id, parent, puzzle hash, amount) of the validated spends in order (removals_spec) and exactly the created coins with the same hints in spend and condition order (additions_spec - the scanner's hint rule is proved equal to parse_args'), and get_puzzle_and_solution_for_coin's model finds every removed coin and returns a puzzle whose tree hash is the coin's puzzle hash (lookup_spec). "
     "The coin-spend recovery and SpendBundle::additions clauses are compared with the prescription on every case but not proved, hence level other. Two genuine defects found by this check were repaired (known_findings.txt).")
 PROPS["C09"]["technique"] = "Lean 4 theorems relating the trusted-helper scanner models to the full-validation model + differential correspondence against the validated conditions"
+
+
+# ---- C01: refinement to the order-free rule specification (merged from the prover) ----
+PROPS["C01"]["theorems"] = ['ChiaModel.C01.C01_refines', 'ChiaModel.C01.C01_rejects', 'ChiaModel.C01.C01_summary_unique',
+    'ChiaModel.C01.spend_refines', 'ChiaModel.C01.spend_rejects', 'ChiaModel.C01.spend_accepts_order_free', 'ChiaModel.C01.spend_result_fields',
+    'ChiaModel.C01.summary_aggregates_spec', 'ChiaModel.C01.spend_locks_spec', 'ChiaModel.C01.condLoop_refines',
+    'ChiaModel.C01.dedup_flag_closed_form', 'ChiaModel.C01.ff_flag_closed_form', 'ChiaModel.C01.flags_empty_visitor',
+    'ChiaModel.C01.msgKey_injective', 'ChiaModel.C01.message_keys_wellformed',
+    'ChiaModel.C01.opcode_whitelist', 'ChiaModel.C01.opcode_constants', 'ChiaModel.C01.parseOpcode_spec', 'ChiaModel.C01.validateConditions_iff']
+PROPS["C01"]["open"] = ['open_message_opcode_inversion: only opcodes 66/67 parse to SEND/RECEIVE_MESSAGE conditions (35-branch case analysis of parseArgs not carried out)',
+    "the argument grammar of the individual conditions (Appendix A table for parse_args) is not restated independently of the model: C01_refines uses the model's parseArgs through parseAll; that table is tied to the code by the correspondence sweep (every opcode x every argument shape) only"]
+PROPS["C01"]["level"] = "proof"
+PROPS["C01"]["level_text"] = ("Proof of refinement to an order-free declarative rule set + correspondence. For every tree, every flag set, both visitors, every cost limit and every signature verdict: "
+    "C01_refines: the parse_spends model accepts with (bundle, state) iff the tree parses as a list of spend tuples ps (parseBundle: list termination, tuple shape, sanitised parent / puzzle hash / amount, per-condition parse), BundleAccepts holds (spend count within the limit, coin ids pairwise distinct, total cost <= limit, per spend SpendAccepts - nine order-free clauses: no duplicate outputs, concurring relative locks / birth facts, no impossible lock pairs, assert-my-* facts equal to the coin's attributes, ephemeral restrictions, fee and announcement budgets - total fee < 2^64, the deferred cross-spend assertions each have a counterpart in the bundle, signature verdict) and (bundle, state) = bundleSummary ps, whose 48 per-spend fields are proved to be maxima / minima / common values / sums / filtered lists of the conditions (spend_result_fields, summary_aggregates_spec); C01_rejects: it rejects iff no such ps exists; "
+    "spend_accepts_order_free: the per-spend acceptance predicate is invariant under permutation of the conditions; the mempool eligibility flags have closed forms (dedup_flag_closed_form, ff_flag_closed_form, flags_empty_visitor); message keys are injective (msgKey_injective). "
+    "The opcode whitelist and cost constants are regenerated from the source (opcode_whitelist, opcode_constants, parseOpcode_spec); validate_conditions is proved equivalent to the declarative cross-spend predicates (validateConditions_iff). "
+    "The per-condition argument grammar (parse_args table: arity, atom sizes, sanitizers, hint rule) is used by the specification as written in the model (parseAll) - it is not restated independently; it is tied to the code by the correspondence sweep over every opcode x every argument shape x flags. The model as a whole is compared with the real parse_spends on every generated tree: verdict and the full summary.")
+PROPS["C01"]["level_note"] = ("Trusted: Lean kernel + standard axioms; hand model = code only on the cases run; the argument grammar table is shared between specification and model (see level text); blst key validity enters as a per-case oracle (list of valid keys computed by the harness with chia_bls); signature offered is the identity, so BLS verification reduces to `no pairs collected` (C05 covers the signature rule).")
+PROPS["C01"]["technique"] = "Lean 4 refinement theorem (executable parse_spends model <-> order-free declarative acceptance predicate and summary function, for all trees/flags/visitors/limits) + translator for opcode/cost tables + differential correspondence on the full summary"
